@@ -1059,7 +1059,12 @@ def judge(ck, hbin, script, tag, res):
             s = [script[0]] + lines
             r2 = run_script(ck, hbin, s)
             return r2["fail"] is not None and r2["fail"][2] == klass
-        small = [script[0]] + core.ddmin(script[1:], still, max_tests=150)
+        if any(l.startswith("gate ") for l in script):
+            # handshake scripts are short and every line is part of the rendezvous (dropping one turns a
+            # bounded wait into a time-out): reported as they are
+            small = script
+        else:
+            small = [script[0]] + core.ddmin(script[1:], still, max_tests=150)
         r2 = run_script(ck, hbin, small)
         f2 = r2["fail"] or fail
         rec = {"engine": "ptc", "class": f2[2], "what": f2[1]}
